@@ -4,7 +4,7 @@
    comments, character references).  [ents] is any well-formed table of named references that knows amp; lt; gt;. *)
 From Coq Require Import List NArith Bool.
 Import ListNotations.
-From Verif Require Import Val HtmlSpec HtmlEsc HtmlEscProofs Templates.
+From Verif Require Import Val HtmlSpec HtmlEsc HtmlEscProofs HtmlTagsProofs Templates.
 Local Open Scope N_scope.
 
 (* ---- M1: textDefault --------------------------------------------------------------------------------------------- *)
@@ -103,6 +103,39 @@ Theorem C12_post_tags_escape :
   forall (hi : bool) (s : str),
     post_html5 (post_high hi (escape s)) = post_high hi (escape s) /\ post_xhtml (post_high hi (escape s)) = post_high hi (escape s).
 Proof. exact post_tags_escape. Qed.
+
+(* On a whole file: see the file as a list of items - text characters (anything but "<") and tags ("<" body ">" with neither "<"
+   nor ">" in the body).  For EVERY such file the regular-expression scans are exactly item-level rewrites:
+   r1 (empty paragraphs) removes groups  <p> blank* </p>  and nothing else; r2 (empty cells) replaces the blanks of groups
+   <td..> blank* </td>  (same for th) by &nbsp; and nothing else. *)
+Theorem C12_r1_items : forall l : list item, structured l -> exists l', r1_rel l l' /\ r1 (flat l) = flat l'.
+Proof. exact r1_items. Qed.
+
+Theorem C12_r2_items : forall l : list item, structured l -> exists l', r2_rel l l' /\ r2 (flat l) = flat l'.
+Proof. exact r2_items. Qed.
+
+(* hence: every text character that is not an ASCII blank survives r1 in order, and so does every tag other than <p> / </p>;
+   r2 keeps every tag and only adds "&nbsp;" to the visible text *)
+Theorem C12_r1_keeps : forall l l' : list item, r1_rel l l' -> vis l' = vis l /\ other_tags l' = other_tags l.
+Proof. exact r1_keeps. Qed.
+
+Theorem C12_r2_keeps : forall l l' : list item, r2_rel l l' -> tags_of l' = tags_of l /\ adds_nbsp (vis l) (vis l').
+Proof. exact r2_keeps. Qed.
+
+(* HTML5.processFileContent's clean-up as a whole (r2 after r1) *)
+Theorem C12_post_html5_items :
+  forall l : list item, structured l ->
+    exists l1 l2, r1_rel l l1 /\ r2_rel l1 l2 /\ post_html5 (flat l) = flat l2 /\
+                  other_tags l2 = other_tags l /\ adds_nbsp (vis l) (vis l2).
+Proof. exact post_html5_items. Qed.
+
+(* non-vacuity: <p> blanks </p> <td x> blank </td> <p> a U+00A0 </p>  is structured; the empty paragraph goes, the cell is filled,
+   the paragraph holding a no-break space stays *)
+Example C12_clean_up_nonvacuous :
+  structured ex_items /\
+  post_html5 (flat ex_items) = flat [G [60; 116; 100; 32; 120; 62]; T 38; T 110; T 98; T 115; T 112; T 59; G [60; 47; 116; 100; 62];
+                                    G [60; 112; 62]; T 97; T 160; G [60; 47; 112; 62]].
+Proof. exact ex_items_ok. Qed.
 
 (* ---- M5: attribute context --------------------------------------------------------------------------------------------- *)
 
